@@ -16,6 +16,7 @@ import (
 	"sort"
 	"strings"
 	"sync"
+	"unicode/utf8"
 
 	"pgregory.net/rapid"
 
@@ -33,6 +34,8 @@ type world struct {
 	loot   string // T/loot
 	agents string // T/loot/agents
 	snap   snapshot
+	// lastLoose: the file the last judge() accepted under permit.looseUnder ("" = none)
+	lastLoose string
 }
 
 // scratchParent prefers a memory-backed directory (the check creates and lists a few
@@ -198,6 +201,11 @@ type permit struct {
 	// craftedID: the operation carried an agent id that is not a single path component;
 	// it may create nothing at all, and whatever it creates is reported under this label.
 	craftedID string
+	// looseUnder: the name carried removable / normalisable characters (NUL, zero-width, trailing
+	// dots …).  Where inside its own folder such a name is stored is not the property's business:
+	// ONE newly created file strictly inside looseUnder is accepted if looseOK likes its content.
+	looseUnder string
+	looseOK    func(cur []byte) string
 }
 
 func (p *permit) allowFile(path string, f func(old []byte, existed bool, cur []byte) string) {
@@ -220,6 +228,7 @@ func (w *world) judge(step int, desc string, p permit) *core.Violation {
 	cur := takeSnapshot(w.base)
 	prev := w.snap
 	w.snap = cur
+	w.lastLoose = ""
 	tin := "target-outside"
 	if p.targetIn {
 		tin = "target-inside"
@@ -237,6 +246,13 @@ func (w *world) judge(step int, desc string, p permit) *core.Violation {
 			continue
 		}
 		v, ok := p.files[f]
+		if !ok && p.looseUnder != "" && !existed && w.lastLoose == "" && inside(p.looseUnder, f) {
+			if msg := p.looseOK(cur.files[f]); msg != "" {
+				return core.V(p.writer+"|content", "step %d (%s): file %s: %s", step, desc, w.rel(f), msg)
+			}
+			w.lastLoose = f
+			continue
+		}
 		if !ok {
 			verb := "created"
 			if existed {
@@ -339,7 +355,7 @@ var ordinaryAtoms = []string{"f", "a", "b", "report.txt", "x1"}
 func nameAtoms(own, other string) []string {
 	return []string{
 		"f", "a", "b", "report.txt", "x1",
-		"..", ".", "",
+		"..", ".", "", "...",
 		"Download", "Downloads", "Download_x", "Down",
 		"Screenshots", "Screenshots_x", "Screenshot",
 		"Console_" + own + ".log",
@@ -406,11 +422,162 @@ func genName(t *rapid.T, own, other string) string {
 			s += sep()
 		}
 	}
-	return capUps(s)
+	// half of the names stay as they are, the other half is decorated
+	if rapid.Bool().Draw(t, "decorate") {
+		s = decorate(t, s)
+	}
+	return tame(capUps(s), maxUps)
 }
 
 // capUps rewrites surplus ".." components (beyond maxUps) to "u" so that nothing can
 // leave the walk root unobserved.
+// ---------------------------------------------------------------- decorations
+//
+// Characters that some layer may remove or normalise (a C string terminator, zero-width and
+// soft characters, what Windows strips from the end of a component, escapes a decoder would
+// undo, bytes a UTF-8 sanitiser would drop).  They are inserted at generated positions INSIDE
+// components, so that "." "\x00" "." or ".." "\u200b" stand where ".." would be refused.
+
+type deco struct{ class, s string }
+
+var decos = []deco{
+	{"nul", "\x00"}, {"nul", "\x00"}, {"nul", "\x00"}, {"nul-run", "\x00\x00"},
+	{"zwsp", "\u200b"}, {"bom", "\ufeff"}, {"soft-hyphen", "\u00ad"},
+	{"tab", "\t"}, {"space", " "},
+	{"invalid-utf8", "\xff"}, {"invalid-utf8", "\xc3"},
+	{"overlong-utf8", "\xc0\xae"}, {"overlong-utf8", "\xc0\xaf"},
+}
+
+var tails = []deco{{"trailing-dot", "."}, {"trailing-space", " "}, {"trailing-dot-space", ". "}, {"nul", "\x00"}}
+
+func isSep(b byte) bool { return b == '/' || b == '\\' }
+
+// decorate rewrites a name: every component is decorated with probability 1/3 (".." components
+// with probability 2/3), and now and then a separator or a ".." is spelled as an escape.
+func decorate(t *rapid.T, s string) string {
+	var out strings.Builder
+	i := 0
+	for i <= len(s) {
+		j := i
+		for j < len(s) && !isSep(s[j]) {
+			j++
+		}
+		comp := s[i:j]
+		lim := 3
+		if comp == ".." || comp == "." {
+			lim = 6
+		}
+		if len(comp) < 64 && rapid.IntRange(0, 8).Draw(t, "deco?") < lim {
+			switch k := rapid.IntRange(0, 9).Draw(t, "decokind"); {
+			case k < 7:
+				d := rapid.SampledFrom(decos).Draw(t, "deco")
+				pos := rapid.IntRange(0, len(comp)).Draw(t, "decopos")
+				comp = comp[:pos] + d.s + comp[pos:]
+			case k < 9:
+				comp += rapid.SampledFrom(tails).Draw(t, "tail").s
+			default:
+				comp = strings.ReplaceAll(comp, ".", rapid.SampledFrom([]string{"%2e", "%2E", "\xc0\xae"}).Draw(t, "dotesc"))
+			}
+		}
+		out.WriteString(comp)
+		if j >= len(s) {
+			break
+		}
+		// the separator run
+		k := j
+		for k < len(s) && isSep(s[k]) {
+			k++
+		}
+		if rapid.IntRange(0, 19).Draw(t, "sepesc?") == 0 {
+			out.WriteString(rapid.SampledFrom([]string{"%2f", "%5c", "\xc0\xaf"}).Draw(t, "sepesc"))
+		} else {
+			out.WriteString(s[j:k])
+		}
+		i = k
+		if i == len(s) {
+			break
+		}
+	}
+	return out.String()
+}
+
+// normaliseHostile is the most generous reading a sloppy layer could give a name: escapes
+// decoded, every removable character dropped.
+func normaliseHostile(s string) string {
+	r := strings.NewReplacer("%2e", ".", "%2E", ".", "%2f", "/", "%2F", "/", "%5c", "/", "%5C", "/", "\xc0\xae", ".", "\xc0\xaf", "/", "\\", "/",
+		"\x00", "", "\u200b", "", "\ufeff", "", "\u00ad", "", "\t", "", " ", "", "\xff", "", "\xc3", "", "\ufffd", "")
+	return r.Replace(s)
+}
+
+// hostileUps counts the components that are, or could be normalised into, a step upwards.
+func hostileUps(s string) int {
+	n := 0
+	for _, c := range strings.Split(normaliseHostile(s), "/") {
+		if len(c) >= 2 && strings.Trim(c, ".") == "" {
+			n++
+		}
+	}
+	return n
+}
+
+// tame makes sure at most max (possible) steps upwards remain, so that nothing can leave the
+// observed tree: surplus dots are spelled "d".
+func tame(s string, max int) string {
+	for hostileUps(s) > max {
+		i := strings.LastIndexAny(s, ".")
+		j := strings.LastIndex(s, "%2")
+		k := strings.LastIndex(s, "\xc0\xae")
+		switch {
+		case k >= 0 && k >= i && k >= j:
+			s = s[:k] + "d" + s[k+2:]
+		case j >= 0 && j > i:
+			s = s[:j] + "d" + s[j+3:]
+		case i >= 0:
+			s = s[:i] + "d" + s[i+1:]
+		default:
+			return "d"
+		}
+	}
+	return s
+}
+
+// decoClasses names the decoration classes present in a name (labels).
+func decoClasses(s string) []string {
+	var l []string
+	add := func(b bool, n string) {
+		if b {
+			l = append(l, n)
+		}
+	}
+	add(strings.Contains(s, "\x00"), "nul")
+	add(strings.Contains(s, "\u200b"), "zwsp")
+	add(strings.Contains(s, "\ufeff"), "bom")
+	add(strings.Contains(s, "\u00ad"), "soft-hyphen")
+	add(strings.Contains(s, "\t"), "tab")
+	add(strings.Contains(s, " "), "space")
+	add(strings.Contains(s, "%2"), "percent-escape")
+	add(strings.Contains(s, "\xc0\xae") || strings.Contains(s, "\xc0\xaf"), "overlong-utf8")
+	add(!utf8.ValidString(s), "invalid-utf8")
+	disguised, trailing := false, false
+	for _, c := range strings.FieldsFunc(s, func(r rune) bool { return r == '/' || r == '\\' }) {
+		n := normaliseHostile(c)
+		if c != ".." && len(n) >= 2 && strings.Trim(n, ".") == "" {
+			disguised = true
+		}
+		if len(c) > 1 && (strings.HasSuffix(c, ".") || strings.HasSuffix(c, " ")) && strings.Trim(c, ".") != "" {
+			trailing = true
+		}
+	}
+	add(trailing, "trailing-dot-or-space")
+	add(disguised, "disguised-dotdot")
+	return l
+}
+
+// decorated: the name contains something a layer might remove or normalise.
+func decorated(s string) bool {
+	return normaliseHostile(strings.ReplaceAll(s, "\\", "/")) != strings.ReplaceAll(s, "\\", "/") || strings.Contains(s, "...")
+}
+
 func capUps(s string) string { return capUpsN(s, maxUps) }
 
 func capUpsN(s string, max int) string {
@@ -451,6 +618,7 @@ func countUps(s string) int {
 // name classes (labels / non-triviality)
 type nameClass struct {
 	dotdot, backslash, mixed, doubled, prefixSib, nul, long, drive, lead, trail bool
+	deco                                                                        []string
 }
 
 func classifyName(s string) nameClass {
@@ -469,6 +637,7 @@ func classifyName(s string) nameClass {
 	c.drive = strings.Contains(s, "C:") || strings.Contains(s, "\\\\srv")
 	c.lead = strings.HasPrefix(s, "/") || strings.HasPrefix(s, "\\")
 	c.trail = strings.HasSuffix(s, "/") || strings.HasSuffix(s, "\\")
+	c.deco = decoClasses(s)
 	return c
 }
 
@@ -489,10 +658,24 @@ func (c nameClass) labels(prefix string) []string {
 	add(c.drive, "drive-or-unc")
 	add(c.lead, "leading-sep")
 	add(c.trail, "trailing-sep")
+	for _, d := range c.deco {
+		l = append(l, "deco:"+d)
+	}
 	return l
 }
 
-func (c nameClass) interesting() bool { return c.dotdot || c.mixed || c.doubled || c.prefixSib }
+func (c nameClass) interesting() bool {
+	return c.dotdot || c.mixed || c.doubled || c.prefixSib || c.disguised()
+}
+
+func (c nameClass) disguised() bool {
+	for _, d := range c.deco {
+		if d == "disguised-dotdot" {
+			return true
+		}
+	}
+	return false
+}
 
 // plainRelative: a name made only of ordinary components (no "", ".", "..", NUL,
 // over-long component) — the class for which creation MUST succeed.
